@@ -290,7 +290,7 @@ func (r *Run) Finish() int {
 	known := []map[string]any{}
 	for _, fd := range r.Findings {
 		if fd.Kind == "finding" && fd.Hits > 0 {
-			fmt.Printf("KNOWN-FINDING: property=%s %s %s (%d cases, e.g. %s)\n", r.Cfg.Prop, fd.ID, fd.What, fd.Hits, oneLine(fd.First))
+			fmt.Printf("KNOWN-FINDING: property=%s %s %s (%d cases, e.g. %s)\n", r.Cfg.Prop, fd.ID, short(fd.What, 160), fd.Hits, oneLine(fd.First))
 			known = append(known, map[string]any{"id": fd.ID, "cases": fd.Hits, "first": fd.First})
 		}
 	}
@@ -541,4 +541,11 @@ func firstDiag(rs []*Result) string {
 		return w[0]
 	}
 	return ""
+}
+
+func short(s string, n int) string {
+	if len(s) > n {
+		return s[:n] + "..."
+	}
+	return s
 }
